@@ -107,6 +107,9 @@ def judgeRead (st : St) (x : String) (meth : String) (expected : S → String) (
 
 def step (st : St) (ts : List String) : St × String :=
   let (op, out) := splitArrow ts
+  -- a malformed line (both sides answer `bad-op`; happens only while a failing case is being minimised) is not an
+  -- observation of the implementation
+  if out == ["bad-op"] then (st, "ok") else
   if st.dead then (if op == ["reset"] then ({}, "ok") else if out == ["skipped"] then (st, "ok") else (st, "reject bad-output after panic")) else
   match op with
   | ["reset"] => ({}, if out == ["ok"] then "ok" else "reject bad-output")
@@ -159,6 +162,73 @@ def step (st : St) (ts : List String) : St × String :=
       | (st', none) => (st', "ok")
       | (st', some msg) => (st', msg)
     | some m, none, _ => (st, "reject " ++ site m "Clone" ++ " bad-output " ++ " ".intercalate out)
+    | _, _, _ => (st, "reject bad-op")
+  | ["eachcall", x, k, m, y] =>
+    let meth : Option NestedM := match m with
+      | "remove" => some .remove | "cadd" => some .cadd | "add" => some .add | "contains" => some .contains | _ => none
+    match st.get x, st.get y, k.toNat?, meth, out with
+    | some p, some q, some _, some _, ["deadlock"] =>
+      if p.dead || q.dead then (st, "ok") else
+      ((if p.wrapped then st.put x { p with dead := true } else st),
+        s!"reject threadSafeDuplex:nested-call-deadlock {x}.Each(func(v) \{ {y}.{m}(v) }) never returns although {y} is another provider")
+    | some p, some q, some k, some meth, ["ok", c1, r1, "|", c2, r2] =>
+      let vs := if k = 0 then p.ideal else eachPrefix p.ideal k
+      match judgeObs st x p p.ideal (site p "Each") c1 r1 with
+      | (st1, some msg) => (st1, msg)
+      | (st1, none) => match judgeObs st1 y q (vs.foldl (nestedApply meth) q.ideal) (site p "Each" ++ ":delegate-calls-other-provider") c2 r2 with
+        | (st2, some msg) => (st2, msg)
+        | (st2, none) => (st2, "ok")
+    | some p, some _, some _, some _, _ => (st, "reject " ++ site p "Each" ++ " bad-output " ++ " ".intercalate out)
+    | _, _, _, _, _ => (st, "reject bad-op")
+  | ["toids", x] => match st.get x, out with
+    | some m, ["deadlock"] => if m.dead then (st, "ok") else (st, "reject threadSafeDuplex:unexpected-deadlock DuplexToGraphIDs")
+    | some m, [card, r] => match judgeObs st x m m.ideal "graph.DuplexToGraphIDs" card r with
+      | (st', none) => (st', "ok")
+      | (st', some msg) => (st', msg)
+    | some _, _ => (st, "reject graph.DuplexToGraphIDs bad-output " ++ " ".intercalate out)
+    | _, _ => (st, "reject bad-op")
+  | ["toidsrace", x, lo, n] => match st.get x, lo.toNat?, n.toNat?, out with
+    | some _, some _, some _, "panic" :: rest =>
+      ({ st with dead := true }, "reject graph.DuplexToGraphIDs:concurrent-writer panic " ++ " ".intercalate rest)
+    | some m, some lo, some n, "ok" :: bad :: card :: r :: rest =>
+      if bad != "bad=0" then
+        (st, s!"reject graph.DuplexToGraphIDs:concurrent-writer a conversion returned an ID that was never a member, or out of order: {bad} " ++ " ".intercalate rest)
+      else match judgeObs st x m (slideWindow m.ideal lo n) "threadSafeDuplex:concurrent-use" card r with
+        | (st', none) => (st', "ok")
+        | (st', some msg) => (st', msg)
+    | some _, _, _, _ => (st, "reject graph.DuplexToGraphIDs:concurrent-writer bad-output " ++ " ".intercalate out)
+    | _, _, _, _ => (st, "reject bad-op")
+  | ["caddrace", x, lo, n, _] => match st.get x, lo.toNat?, n.toNat?, out with
+    | some m, some lo, some n, ["ok", trues, card, r] =>
+      let rng := rangeList lo 1 n
+      let e := s!"trues={(diff rng m.ideal).length}"
+      if trues != e then
+        (st, s!"reject threadSafeDuplex.CheckedAdd:not-atomic concurrent CheckedAdd of the same values: expected {e} got {trues}")
+      else match judgeObs st x m (union m.ideal rng) "threadSafeDuplex:concurrent-use" card r with
+        | (st', none) => (st', "ok")
+        | (st', some msg) => (st', msg)
+    | some _, _, _, "panic" :: rest => ({ st with dead := true }, "reject threadSafeDuplex:concurrent-use panic " ++ " ".intercalate rest)
+    | some _, _, _, _ => (st, "reject threadSafeDuplex:concurrent-use bad-output " ++ " ".intercalate out)
+    | _, _, _, _ => (st, "reject bad-op")
+  | ["kindor", x, y] => match st.get x, st.get y, out with
+    | some p, some q, [c0, r0, "|", c1, r1, "|", c2, r2] =>
+      match c0.toNat?, parseRle r0 with
+      | some n, some got =>
+        if n != got.length || got != union p.ideal q.ideal then
+          (st, s!"reject graph.KindBitmaps:AddDuplexToKind wrong union: expected={brief (union p.ideal q.ideal)} got={brief got}")
+        else match judgeObs st x p p.ideal "graph.KindBitmaps:mutates-argument" c1 r1 with
+          | (st1, some msg) => (st1, msg)
+          | (st1, none) => match judgeObs st1 y q q.ideal "graph.KindBitmaps:mutates-argument" c2 r2 with
+            | (st2, some msg) => (st2, msg)
+            | (st2, none) => (st2, "ok")
+      | _, _ => (st, "reject graph.KindBitmaps:AddDuplexToKind bad-output")
+    | some _, some _, _ => (st, "reject graph.KindBitmaps:AddDuplexToKind bad-output " ++ " ".intercalate out)
+    | _, _, _ => (st, "reject bad-op")
+  | "comm" :: v :: toks => match v.toNat?, commGroups (fun n => (st.get n).map (·.ideal)) toks, out with
+    | some v, some (ors, ands), [a] =>
+      -- spec: in the union of some `or` group and in the union of every `and` group (Props.commutative_contains)
+      let e := toString (commDuplexesContains ors ands v)
+      if a == e then (st, "ok") else (st, s!"reject CommutativeDuplexes.Contains wrong-answer v={v}: expected={e} got={a}")
     | _, _, _ => (st, "reject bad-op")
   | ["nd", o, x] => match parseOp o with
     -- operand is not a Duplex: outside the property's statement; the type switch has no case for it and the
